@@ -22,7 +22,8 @@ EXPLANATION = (
     "retryable (C04.R1); (R5) lock mutations are CAS (C19.R3)."
     ' Also: after a successful pointer read its ETag reaches the conditional write on every path; ETag reads are followed through helper functions; (R6) the fence returns decided constants only.'
     " R1 also requires the ETag read to sit on the supports_cas branch; R3 requires every pointer write's capability flag to be decided (conditional write iff supports_cas)."
-    " (R7) every other function that reads the pointer's ETag and flips the pointer ties the validated version to that read; (R8) the lock owner token is a per-instance uuid4 (shared with C19.R8).")
+    " (R7) every other function that reads the pointer's ETag and flips the pointer ties the validated version to that read; (R8) the lock owner token is a per-instance uuid4 (shared with C19.R8)."
+    ' (R9) supports_cas returns exactly the flag create_lock branches on, and read_file_with_etag takes content and ETag from ONE get_object response. Conditional expressions (`x = read() if supports_cas else NONE`) are branches; records (NamedTuple) carrying the ETag / the owner test are looked through.')
 NOT_DECIDED = "the schedules themselves; S3's conditional-write semantics"
 
 
